@@ -23,8 +23,8 @@ meta = {
     "confirmed": [l for l in confirm.splitlines() if l.startswith("---") or l.startswith("test result") or l.startswith("passed") or "FAILED" in l and "types::tests" not in l][:12],
     "caught_by": caught,
     "ran": "selftest/process_seed.sh %s %s %s (confirm_seed.sh: demo on original / demo with patch / suite with patch on the scratch worktree "
-           "/tmp/mut/%s; try_seed_alt.sh: quick-tier checks with CADENCE_REPO pointing at a scratch worktree with the patch applied) on 2026-10-01"
-           % (pid, crate, " ".join(sorted(caught)), pid),
+           "/tmp/mut/%s; try_seed_alt.sh: quick-tier checks with CADENCE_REPO pointing at a scratch worktree with the patch applied) on %s"
+           % (pid, crate, " ".join(sorted(caught)), pid, __import__("time").strftime("%Y-%m-%d")),
 }
 json.dump(meta, open(os.path.join(dst, "meta.json"), "w"), indent=1)
 print(json.dumps(meta, indent=1)[:1500])
